@@ -231,19 +231,19 @@ impl KMonitor for C12 {
 // ---------------------------------------------------------------- C13
 
 #[derive(Clone, Debug, Default)]
-struct Latch {
+pub struct Latch {
     latched: bool,
     /// Start of the current uninterrupted run of selects that all saw fresh proof.
     run_start: Option<u64>,
     pulled: bool,
-    gate_events: u64,
-    pulls: u64,
+    pub gate_events: u64,
+    pub pulls: u64,
 }
 
 #[derive(Default)]
 pub struct C13 {
     pub own: OwnModel,
-    st: Vec<Latch>,
+    pub st: Vec<Latch>,
 }
 
 fn stale_window(srtt: f64, ceiling: u64) -> u64 {
@@ -320,11 +320,24 @@ impl C13 {
                     );
                 }
             }
+            if p1.silence_pulled && !own.reset_since_select {
+                let spoke = own.heard_at.is_some_and(|h| t.saturating_sub(h) < pw);
+                if spoke || !own.connected {
+                    out.violate(
+                        "C13.pull",
+                        "held_after_speaking",
+                        idx,
+                        format!("link {i}: silence pull still held although the link was heard {:?} ms ago (pull window {pw}), connected={}", own.heard_at.map(|h| t - h), own.connected),
+                    );
+                }
+            }
             // ---- latch rising edge ----
             if !l0 && l1 {
                 out.probe("c13.latch_engaged");
                 st.gate_events += 1;
-                let held = loaded || p0.silence_pulled || p1.silence_pulled;
+                // the pull is re-evaluated first in every decision: only a pull that still holds
+                // after this decision's own evaluation can carry the latch
+                let held = loaded || p1.silence_pulled;
                 let stale = proof_age.is_some_and(|a| a >= w);
                 if own.proof_at.is_none() {
                     out.violate("C13.latch", "never_proved", idx, format!("link {i} was latched although it has never produced delivery proof"));
